@@ -27,6 +27,6 @@ Extraction "Extract/model.ml"
   Squelch.sq_input Squelch.sq_init Squelch.sq_end Squelch.sq_set_lock
   Assembler.asm_init Assembler.asm_assemble Assembler.asm_idle
   Receiver.rx_init Receiver.step_item Receiver.uses_eq Receiver.skip Receiver.pop_event
-  Receiver.process Receiver.run_core
+  Receiver.process Receiver.run_core Receiver.next_message Receiver.flush
   ResetShape.receiver_reset ResetShape.fresh ResetShape.config_of
   Config.builder_new Config.apply_calls Config.build BinInt.Z.leb.
